@@ -36,8 +36,10 @@ func main() {
 			projCase(cr, s)
 		case k < 15:
 			applyCase(cr, s)
-		case k < 18:
+		case k < 17:
 			evalCase(cr, s)
+		case k < 18:
+			plainEvalCase(cr, s)
 		case k < 20:
 			equalsCase(cr, s)
 		default:
@@ -49,7 +51,7 @@ func main() {
 
 func filterCase(r *hlib.Rng, s *hlib.Suite) {
 	qf, cols := genFrame(r, nil)
-	qf, hist := derive(r, qf, cols, s)
+	qf, cols, hist := deriveCols(r, qf, cols, s)
 	malformed := r.Chance(1, 4)
 	cl := genClause(r, cols, 3, malformed)
 	in := qframe.VerifDump(qf)
